@@ -42,6 +42,9 @@ def check_type(value: Any, attr_type: Type) -> bool:
     if attr_type is Any or isinstance(attr_type, TypeVar):
         return True
 
+    if attr_type is None:  # e.g. the parameter of `list[None]`
+        attr_type = type(None)
+
     if attr_type is float:
         attr_type = numbers.Real
 
